@@ -46,7 +46,7 @@ CLAIMED = {
          'Decides the listed clauses; does not decide that rollback itself cannot fail, nor byte balance of allocate/deallocate.',
          'DESIGN.md §4 C19'),
  'C14': ('partial evaluation of the escape writers and of the pointer tokenizer into per-character tables; dominance rules for the index grammar test and the bounds rejection; reachability rule error-store-after-mutation',
-         'Static table agreement: all reference-token escape writers and the tokenizer automaton (4 states x 256 characters) are extracted by partial evaluation and must be mutually inverse per RFC 6901; every token-to-index conversion is followed by the leading-zero rejection; every use of the index as an array position is dominated by the exact bounds rejection; no error store is reachable after a document mutation in add/add_if_absent/replace/remove/resolve. Exhaustive over (state, character) cells, conversion sites, position uses and mutation sites.',
+         'Static table agreement: all reference-token escape writers and the tokenizer automaton (4 states x 256 characters) are extracted by partial evaluation and must be mutually inverse per RFC 6901; every token-to-index conversion is followed by the leading-zero rejection; every use of the index as an array position is dominated by the exact bounds rejection; no error store is reachable after a document mutation in add/add_if_absent/replace/remove/resolve. Exhaustive over (state, character) cells, conversion sites, position uses and mutation sites. Also: flatten and the patch diff put member names into pointer strings only through escape() (R14.6); end-of-input step of the tokenizer for every state.',
          'Decides escape/un-escape agreement, the index grammar and bounds clauses and error-before-mutation (intraprocedural); does not decide that the right location is modified for all documents.',
          'DESIGN.md §4 C14'),
  'C15': ('path rules over the CFG of apply_patch (must-pass-through of the inverse undo entry after every mutation, commit dominance, total dispatch) and of the unwinder',
@@ -74,7 +74,7 @@ CLAIMED = {
          'Decides the listed structural clauses; does not decide the values returned (projection scoping, truthiness, function results).',
          'DESIGN.md §4 C13'),
  'C04': ('dominance rules with exact constants for every digit-accumulation (MAX/base, MAX-digit, digits10-bounded loops), sign-limit constants of the signed wrappers, control dependence of integer/bignum events on the conversion result',
-         'Static guard rules: in all instantiations of the integer readers every accumulator multiplication and addition is dominated by the exact overflow test for the accumulator type (or a digits10-bounded loop), the signed wrappers compare with exactly 2^(w-1) and MAX, and the JSON parser emits an integer event only under a successful conversion, a bigint/bigdec string exactly under the lossless options. Constants are folded by clang for each type, so an off-by-one in any guard is a violation.',
+         'Static guard rules: in all instantiations of the integer readers every accumulator multiplication and addition is dominated by the exact overflow test for the accumulator type (or a digits10-bounded loop), the signed wrappers compare with exactly 2^(w-1) and MAX, and the JSON parser emits an integer event only under a successful conversion, a bigint/bigdec string exactly under the lossless options. Constants are folded by clang for each type, so an off-by-one in any guard is a violation. Also: every wrapping word addition/subtraction of the bigint add/subtract loops feeds the carry/borrow (R04.4).',
          'Decides the overflow-guard and event-kind clauses; does not decide correct rounding of from_chars/strtod, Grisu3 or bigint arithmetic (numerical; no sound static argument in reach here).',
          'DESIGN.md §4 C04'),
  'C08': ('must-pass-through (end_value on every non-error path of every value writer), exact two-sided count comparison at container close, nesting guards and ladder rules shared with C10/C06',
